@@ -4,7 +4,7 @@ from __future__ import annotations
 
 import ast
 
-from ..core.repo import (AnalysisError, Repo, call_name, calls_in, definitions, dotted, func_params, is_const,
+from ..core.repo import (AnalysisError, Repo, call_name, calls_in, definitions, dotted, func_params, is_const, raw_flow_from,
                          kwarg, names_in, unparse, walk_no_nested_defs)
 from ..domains.algnf import NotArithmetic, Rat, from_ast
 
@@ -460,7 +460,12 @@ def _pad_crop(check, repo, mod) -> None:
                     ok = True
                 if isinstance(sd, ast.BoolOp) and isinstance(sd.op, ast.Or) and is_const(sd.values[-1], None):
                     ok = True
-        check.decide(ok, "C06-R4", "Dataset.crop: a stop of 0 ('remove nothing at the end') is mapped to None", why, mod.line(c),
+        # definite arm: the stop operand is the caller's crop width, reached through structure-preserving steps only (names,
+        # unpacking, dict(zip(…)), subscripts, starring) — no conditional anywhere on the way, so a width of 0 reaches slice() as 0.
+        stop_e = c.args[1] if len(c.args) == 2 and not any(isinstance(a, ast.Starred) for a in c.args) else \
+            (c.args[0] if len(c.args) == 1 and isinstance(c.args[0], ast.Starred) else None)
+        raw = (not ok) and stop_e is not None and raw_flow_from(crop, stop_e, "crop_widths") is True
+        check.decide(ok, "C06-R4", "Dataset.crop: a stop of 0 ('remove nothing at the end') is mapped to None", why, mod.line(c), definite=raw,
                      fail_detail=f"`{why}` passes the stop value through unchanged: slice(start, 0) is empty, so cropping pad widths "
                                  f"with a zero trailing width returns an empty axis instead of the original data")
     loop = next((n for n in walk_no_nested_defs(crop) if isinstance(n, ast.For) and "self.shape" in unparse(n.iter)), None)
